@@ -731,6 +731,19 @@ class Exec(object):
 
     def st_Delete(self, node):
         for t in node.targets:
+            if isinstance(t, ast.Subscript) and isinstance(t.slice, ast.Slice) and t.slice.lower is None \
+                    and t.slice.upper is None and t.slice.step is None:
+                # del xs[:] empties the SAME list object (whoever else holds it sees it emptied)
+                base = self.eval(t.value)
+                if isinstance(base, PList):
+                    self.note_write(base)
+                    base.items[:] = []
+                    continue
+                if isinstance(base, SList):
+                    self.note_write(base)
+                    base.length = z3.IntVal(0)
+                    continue
+                raise Unsupported("del form at line %d" % node.lineno)
             if isinstance(t, ast.Subscript):
                 base = self.eval(t.value)
                 idx = self.eval(t.slice)
